@@ -314,7 +314,28 @@ func NewSim(env *Env, obs func(t *rt.Task, op rt.Op, fault string), maxSteps int
 func ReportPanics(res *Result, s *rt.Sim, prop string) {
 	for _, t := range s.Tasks() {
 		if t.PanicVal != nil {
-			res.Violate(PanicClass(prop, t.PanicStack), fmt.Sprint(t.PanicVal), "panic in task %d (%s): %v\n%s", t.ID, t.Role, t.PanicVal, t.PanicStack)
+			res.Violate(PanicClass(prop, t.PanicStack), fmt.Sprintf("%v @ %s", t.PanicVal, PanicSite(t.PanicStack)), "panic in task %d (%s): %v\n%s", t.ID, t.Role, t.PanicVal, t.PanicStack)
 		}
 	}
+}
+
+// PanicSite is the function in which a recovered panic was raised (the first
+// frame below the runtime's panic machinery), without arguments.
+func PanicSite(stack string) string {
+	lines := strings.Split(stack, "\n")
+	seenPanic := false
+	for _, ln := range lines {
+		if strings.HasPrefix(ln, "panic(") {
+			seenPanic = true
+			continue
+		}
+		if !seenPanic || strings.HasPrefix(ln, "\t") || strings.HasPrefix(ln, "runtime.") || strings.HasPrefix(ln, "runtime/") {
+			continue
+		}
+		if i := strings.LastIndex(ln, "("); i > 0 {
+			ln = ln[:i]
+		}
+		return ln
+	}
+	return "?"
 }
